@@ -284,9 +284,10 @@ def readUnpackInfo : P (List Folder) := do
   let pid ← read1
   let (folders, pid) ← (if pid = some 0x0A then do
       let defined ← pBools numfolders true
-      let crcs ← pCrcs numfolders          -- one CRC per folder whether defined or not
+      -- a CRC is stored only for the folders whose defined-bit is set
+      let crcs ← defined.mapM (fun d => if d then (do let c ← pFixed 4; pure (some c)) else pure none)
       let fs := (folders.zip (defined.zip crcs)).map
-        (fun (f, d, c) => { f with digestdefined := d, crc := some c })
+        (fun (f, d, c) => { f with digestdefined := d, crc := c })
       -- folders beyond the shorter list keep their defaults (cannot happen: equal lengths)
       let pid ← read1
       pure (fs, pid)
@@ -354,7 +355,8 @@ def readSubStreams (folders : List Folder) : P SubStreams := do
   let numDigestsTotal := nums.sum
   let (dd, ds, pid) ← (if pid = some 0x0A then do
       let defined ← pBools numDigests true
-      let crcs ← pCrcs numDigests
+      -- a CRC is stored only for the streams whose defined-bit is set (0 is kept for the others)
+      let crcs ← defined.mapM (fun d => if d then pFixed 4 else pure 0)
       match assignDigests nums folders defined crcs with
       | none => fail .malformed
       | some (d, c) =>
@@ -397,7 +399,8 @@ def writeSubStreams (s : SubStreams) : Option Bytes :=
     | some p2 =>
       let part3 :=
         if s.digestsdefined.any id then
-          [0x0A] ++ writeBools s.digestsdefined true ++ s.digests.flatMap (fun c => leBytes c 4)
+          [0x0A] ++ writeBools s.digestsdefined true ++
+            ((s.digests.zip s.digestsdefined).filter (·.2)).flatMap (fun c => leBytes c.1 4)
         else []
       some (part1 ++ p2 ++ part3 ++ [0x00])
 
